@@ -393,7 +393,7 @@ def main():
                 "checker_cmd": f"cd /verif/lean && lake build NomtModel.Props.{prop} && lake env lean .lake/audit/Audit{prop}.lean  (#print axioms of every theorem)" + ("; lake env leanchecker NomtModel.Props." + prop if tier == "thorough" else ""),
                 "trusted_base": cfg.get("trusted_base", []) + ["Lean 4.33.0 kernel", "axioms: " + ", ".join(sorted({x for v in aud["axioms"].values() for x in v}) or ["none"])],
                 "theorems": [{"name": n, "axioms": aud["axioms"].get(n)} for n in aud["theorems"]],
-                "evaluations": sum(r.get("lines", 0) for r in results) + stats.get("children", 0) + stats.get("nested_children", 0),
+                "evaluations": sum(r.get("lines", 0) for r in results) + stats.get("children", 0) + stats.get("nested_children", 0) + stats.get("evaluations", 0),
                 "distinct_nontrivial": stats.get("distinct_nontrivial", 0),
                 "rule": cfg.get("rule", ""),
                 "samples": samples[:10] or ["(no correspondence samples)"],
